@@ -85,7 +85,7 @@ def step (st : St) (j : Json) : St × List String :=
       let resps := ((jArr j "resps").map parseResp).toArray
       let srv : Nat → Req → Option Resp := fun hop _ => (resps[hop]?).join
       let hist := (jStrs j "hist").map (· == "active")
-      let node : Node := { didMethods := st.methods, localState := fun _ => sqlState hist, keyDecodes := fun _ => jBool j "keyok",
+      let node : Node := { didMethods := st.methods, localState := fun _ => if jBool j "fault" then .dbError else sqlState hist, keyDecodes := fun _ => jBool j "keyok",
                            nutsState := fun _ => nutsStateOf hist }
       let (reqs, out) := resolve dec cts factPolicy factLocalFirst st.strict node (jBool j "allow") d srv
       let o := match out with
